@@ -112,6 +112,20 @@ def failing_call_history(r):
     ops.append({'kind': 'diff', 'a': nb(text), 'b': nb(edit(text, i, 'mine'))})
     return ops
 
+def aligned_mime_pair(r):
+    """a pair whose outputs stay aligned (same text) and differ only in a binary and a JSON mime value and in
+    execution counts / output metadata: which item differ handles the aligned outputs is then visible in the diff"""
+    png1 = 'iVBORw0KGgoAAAANSUhEUgAAAAEAAAABCAYAAAAfFcSJ'; png2 = 'iVBORw0KGgoAAAANSUhEUgAAAAEAAAABCAYAAAAfFcSK'   # short payloads: still aligned
+    def cell(cid, n, png, js, md):
+        return {'cell_type': 'code', 'id': cid, 'execution_count': n, 'metadata': {}, 'source': 'plot(data)\nshow()\n',
+                'outputs': [{'output_type': 'stream', 'name': 'stdout', 'text': 'drawing\n'},
+                            {'output_type': 'execute_result', 'execution_count': n, 'metadata': md,
+                             'data': {'text/plain': '<Figure size 640x480 with 1 Axes>', 'image/png': png, 'application/json': js}},
+                            {'output_type': 'display_data', 'metadata': md, 'data': {'text/plain': '<Figure>', 'image/png': png}}]}
+    a = {'cells': [cell('c%d' % i, 1, png1, {'k': [1, 2]}, {'w': 1}) for i in range(r.choice([1, 2]))], 'metadata': {}, 'nbformat': 4, 'nbformat_minor': 5}
+    b = {'cells': [cell(c['id'], 2, png2, {'k': [1, 3]}, {'w': 2}) for c in a['cells']], 'metadata': {}, 'nbformat': 4, 'nbformat_minor': 5}
+    return a, b
+
 def everywhere_pair(r):
     a = gennb.gen_notebook(r, rich=True, minor=5, ncells=r.choice([2, 3, 4]))
     a['metadata'].setdefault('kernelspec', {'display_name': 'Python 3', 'language': 'python', 'name': 'python3'})
@@ -123,7 +137,9 @@ def everywhere_pair(r):
         if c['cell_type'] == 'code':
             c['execution_count'] = 3
             c['outputs'] = [{'output_type': 'stream', 'name': 'stdout', 'text': 'out\n'},
-                            {'output_type': 'execute_result', 'execution_count': 3, 'metadata': {'custom': 1}, 'data': {'text/plain': 'r'}}]
+                            {'output_type': 'execute_result', 'execution_count': 3, 'metadata': {'custom': 1},
+                             'data': {'text/plain': 'r', 'image/png': 'iVBORw0KGgoAAAANSUhEUgAAAAEAAAABCAYAAAAfFcSJAAAADUlEQVR42mNk+M9QDwADhgGAWjR9awAAAABJRU5ErkJggg==',
+                                      'application/json': {'k': [1, 2]}}}]
     b = copy.deepcopy(a)
     b['metadata']['kernelspec'] = dict(b['metadata']['kernelspec'], display_name='Other'); b['metadata']['custom'] = {'v': 2}
     b['metadata']['language_info'] = {'name': 'python', 'version': '3.99'}
@@ -136,7 +152,8 @@ def everywhere_pair(r):
         if c['cell_type'] == 'code':
             c['execution_count'] = 4
             c['outputs'][0]['text'] = 'out changed\n'; c['outputs'][0]['name'] = 'stderr'
-            c['outputs'][1]['execution_count'] = 4; c['outputs'][1]['metadata'] = {'custom': 2}; c['outputs'][1]['data'] = {'text/plain': 'r2'}
+            c['outputs'][1]['execution_count'] = 4; c['outputs'][1]['metadata'] = {'custom': 2}; c['outputs'][1]['data'] = {'text/plain': 'r2', 'image/png': 'iVBORw0KGgoAAAANSUhEUgAAAAEAAAABCAYAAAAfFcSJAAAADUlEQVR42mP8z8BQDwAEhQGAhKmMIQAAAABJRU5ErkJggg==',
+                                           'application/json': {'k': [1, 3]}}
     return a, b
 
 def is_config(o): return o['kind'] in ('targets', 'ignores', 'reset')
@@ -239,6 +256,12 @@ def run(tier, seed):
             for install in ({p: ks}, {p: True}):
                 a, bnb = everywhere_pair(r)
                 histories.append([{'kind': 'ignores', 'mapping': install}, lift, {'kind': 'diff', 'a': a, 'b': bnb}])
+    # key filters installed AFTER the process has already diffed something (the tables then hold materialised defaults)
+    for p, ks in keysets.items():
+        for first in ('diff', 'merge'):
+            a0, b0 = everywhere_pair(r); a, bnb = aligned_mime_pair(r)
+            op0 = {'kind': 'diff', 'a': a0, 'b': b0} if first == 'diff' else {'kind': 'merge', 'base': a0, 'local': b0, 'remote': copy.deepcopy(a0), 'strategy': 'inline'}
+            histories.append([op0, {'kind': 'ignores', 'mapping': {p: ks}}, {'kind': 'diff', 'a': a, 'b': bnb}])
     for hidden in ([0], [3], [4], [5], [2, 4, 5], [0, 1, 2, 3, 4, 5]):
         for lift in ({'kind': 'reset'}, {'kind': 'targets', 'shown': [True] * 6}):
             a, bnb = everywhere_pair(r)
